@@ -12,7 +12,7 @@ from .recipes import Cast, TEMPLATES, add_step, eager_step, containers_of
 
 PROPERTY = 'C09'
 BOUNDS = ("Baked recipe programs of 1-2 steps (quick: all 1-step programs and every 2-step program whose steps share an object; thorough: all "
-          "2-step and 300 seeded 3-step programs) over the 21 step templates of C08 with symbolic quantities; stage "
+          "2-step and 120 seeded 3-step programs) over the 22 step templates of C08 with symbolic quantities; stage "
           "partition: stage s1 = the first k steps, s2 = the rest, for every split point k; queries for water and NaCl "
           "(thorough: + DMSO, never used) in umol, mg (thorough: + mmol, uL, g), timeframes all / s1 / s2, destination "
           "sets: default ('plates'), every single used object, the set of all used objects, and one pair. Oracle: "
@@ -39,7 +39,7 @@ def cells(tier, seed):
     else:
         p3 = [p for p in R.programs(3) if len(p) == 3]
         rng.shuffle(p3)
-        progs = p1 + p2 + p3[:300]
+        progs = p1 + p2 + p3[:120]
         units = ['umol', 'mmol', 'mg', 'g', 'uL']
         subs = ['water', 'NaCl', 'DMSO']
     for prog in progs:
@@ -48,10 +48,13 @@ def cells(tier, seed):
                 continue
             if tier == 'quick' and len(prog) == 1 and k != 1:
                 continue
+            if tier == 'thorough' and len(prog) == 3 and k not in (1, 2):
+                continue
             if tier == 'quick':
                 combos = [[('water', 'umol'), ('NaCl', 'mg')]]       # one exploration of the program serves both queries
             else:
-                combos = [[(sub, unit) for unit in units[i::2]] for sub in subs for i in (0, 1)]
+                combos = [[(sub, unit) for unit in units] for sub in subs] if len(prog) < 3 else \
+                    [[('water', 'umol'), ('NaCl', 'mg'), ('water', 'uL')]]
             for ci, combo in enumerate(combos):
                 out.append({'id': f"prog/{','.join(prog)}/k{k}/q{ci}", 'fn': 'h_used', 'round': 'lite',
                             'max_paths': 400, 'cost': 2 ** len(prog), 'gens': 160,
